@@ -616,7 +616,7 @@ theorem chargeAdductsMassStr_eq (hK : avgKeysOk = true) (mono : Bool) (s : List 
     congr 1
     have : adductTerm lib mono [43, 72, 43] = lib.hplus mono := by
       show sumR [adductIonTerm lib mono [43, 72, 43]] = _
-      have hp : parseIonElements [43, 72, 43] = .ok (1, kH, 1) := by decide
+      have hp : parseIonElements [43, 72, 43] = .ok (1, kH, 1) := by decide +kernel
       unfold adductIonTerm
       rw [hp]
       have : (kH = kE) = False := by decide
